@@ -1,0 +1,101 @@
+//go:build verif
+
+package base
+
+// Machine-checked contracts for package signature/internal/base (checked by /verif/govc; comment-only file).
+// Properties C01, C02, C03, C07, C16, C20 (format-independent wrapper).
+
+//@ import "crypto/x509"
+//@ import "time"
+//@ import "github.com/notaryproject/notation-core-go/signature"
+//@ import "github.com/notaryproject/notation-core-go/internal/algorithm"
+//@ import nx509 "github.com/notaryproject/notation-core-go/x509"
+//@ import "github.com/notaryproject/notation-core-go/signature/jws"
+//@ import "github.com/notaryproject/notation-core-go/signature/cose"
+
+// stmt C07: "an expiry that is absent or strictly later than the signing time"; signing time present
+//@ stmt spec func TimesOK(signingTime time.Time, expiry time.Time) bool { !signingTime.IsZero() && (expiry.IsZero() || expiry.After(signingTime)) }
+// stmt C02/C07: "the declared algorithm matching the leaf key"
+//@ stmt spec func AlgMatchesLeaf(leaf *x509.Certificate, alg signature.Algorithm) bool {
+//@     algorithm.SupportedKey(leaf.PublicKey) && alg == algorithm.AlgOf(algorithm.ExtractKeySpec$(leaf).result0.Type, algorithm.ExtractKeySpec$(leaf).result0.Size) && 1 <= alg && alg <= 6 }
+// stmt C07/C03: "a certificate chain that passes code-signing chain validation with the declared algorithm matching the leaf key"
+//@ stmt spec func ChainAlgOK(ch []*x509.Certificate, t *time.Time, alg signature.Algorithm) bool {
+//@     len(ch) > 0 && nx509.CodeSigningChainOK(ch, t) && AlgMatchesLeaf(ch[0], alg) }
+// stmt C07: wrapper-level rules on returned content
+//@ stmt spec func SignerInfoOK(info *signature.SignerInfo) bool {
+//@     len(info.Signature) > 0 && info.SignatureAlgorithm != 0 &&
+//@     TimesOK(info.SignedAttributes.SigningTime, info.SignedAttributes.Expiry) &&
+//@     info.SignedAttributes.SigningScheme != "" &&
+//@     ChainAlgOK(info.CertificateChain, nil, info.SignatureAlgorithm) }
+//@ stmt spec func ContentOK(c *signature.EnvelopeContent) bool { len(c.Payload.Content) > 0 && SignerInfoOK(fieldptr(c, SignerInfo)) }
+// stmt C20: "stored bytes and decoded message are in sync"
+//@ stmt spec func Inv(e *Envelope) bool { len(e.Raw) == 0 || signature.Encodes(e.Raw, signature.EnvState(e.Envelope)) }
+
+//@ func validatePayload(payload)
+//@   requires payload != nil
+//@   ensures [iff] result == nil <==> len(payload.Content) > 0
+
+//@ func validateSigningAndExpiryTime(signingTime, expireTime)
+//@   ensures [iff] result == nil <==> TimesOK(signingTime, expireTime)
+//@   ensures [typed] result != nil ==> typeof(result) == type(*signature.InvalidSignatureError)
+//@   pure
+
+//@ func validateSigningSchema(schema)
+//@   ensures [iff] result == nil <==> schema != ""
+//@   pure
+
+//@ func getSignatureAlgorithm(signingCert)
+//@   requires signingCert != nil && algorithm.KeyShape(signingCert.PublicKey)
+//@   ensures [iff] err == nil <==> algorithm.SupportedKey(signingCert.PublicKey)
+//@   ensures [table] err == nil ==> result == algorithm.AlgOf(algorithm.ExtractKeySpec$(signingCert).result0.Type, algorithm.ExtractKeySpec$(signingCert).result0.Size) && 1 <= result && result <= 6
+//@   pure
+
+//@ func validateCertificateChain(certChain, signTime, expectedAlg)
+//@   requires nx509.ChainInput(certChain)
+//@   ensures [iff] result == nil <==> ChainAlgOK(certChain, signTime, expectedAlg)
+//@   ensures [typed] result != nil ==> typeof(result) == type(*signature.InvalidSignatureError)
+
+//@ func validateSignerInfo(info)
+//@   requires info != nil && nx509.ChainInput(info.CertificateChain)
+//@   ensures [iff] result == nil <==> SignerInfoOK(info)
+
+//@ func validateEnvelopeContent(content)
+//@   requires content != nil && nx509.ChainInput(content.SignerInfo.CertificateChain)
+//@   ensures [iff] result == nil <==> (len(content.Payload.Content) > 0 && SignerInfoOK(fieldptr(content, SignerInfo)))
+
+// stmt C16 (request-level clauses)
+//@ stmt spec func RequestOK(req *signature.SignRequest) bool {
+//@     len(req.Payload.Content) > 0 && TimesOK(req.SigningTime, req.Expiry) && req.Signer != nil && req.Signer.KeySpec().err == nil && req.SigningScheme != "" }
+//@ func validateSignRequest(req)
+//@   requires req != nil
+//@   ensures [iff] result == nil <==> RequestOK(req)
+
+//@ func (*Envelope).Verify(e)
+//@   props C01 C07 C20
+//@   requires e != nil && e.Envelope != nil
+//@   ensures [no-signature] len(e.Raw) == 0 ==> result == nil && typeof(err) == type(*signature.SignatureNotFoundError)
+//@   ensures [ok=>integrity] err == nil ==> len(e.Raw) > 0 && result != nil && fresh(result) && signature.IntegrityOK(signature.EnvState(e.Envelope)) && signature.ContentOf(signature.EnvState(e.Envelope), result)
+//@   ensures [ok=>rules] err == nil ==> len(result.Payload.Content) > 0 && SignerInfoOK(fieldptr(result, SignerInfo))
+//@   ensures [err] err != nil ==> result == nil
+//@   ensures [pure] Inv(e) ==> Inv(e)
+
+//@ func (*Envelope).Content(e)
+//@   props C07 C20
+//@   requires e != nil && e.Envelope != nil
+//@   ensures [no-signature] len(e.Raw) == 0 ==> result == nil && typeof(err) == type(*signature.SignatureNotFoundError)
+//@   ensures [ok] err == nil ==> len(e.Raw) > 0 && result != nil && fresh(result) && signature.ContentOf(signature.EnvState(e.Envelope), result)
+//@   ensures [ok=>rules] err == nil ==> len(result.Payload.Content) > 0 && SignerInfoOK(fieldptr(result, SignerInfo))
+//@   ensures [err] err != nil ==> result == nil
+
+//@ func (*Envelope).Sign(e, req)
+//@   props C03 C16 C20
+//@   requires e != nil && e.Envelope != nil && req != nil
+//@   requires Inv(e)
+//@   modifies req.SigningTime, req.Expiry, e.Raw, unbox(e.Envelope, type(*jws.envelope)).base, unbox(e.Envelope, type(*cose.envelope)).base
+//@   ensures [canonical] req.SigningTime == old(req.SigningTime).Truncate(time.Second) && req.Expiry == old(req.Expiry).Truncate(time.Second)
+//@   ensures [ok=>request-valid] err == nil ==> RequestOK(req)
+//@   ensures [err=>no-bytes] err != nil ==> len(result) == 0
+//@   ensures [ok=>stored] err == nil ==> len(result) > 0 && e.Raw == result && signature.Encodes(e.Raw, signature.EnvState(e.Envelope))
+//@   ensures [inv] Inv(e)
+//@   ensures [err=>previous-or-none] err != nil ==> (len(e.Raw) == 0 || (e.Raw == old(e.Raw) && signature.EnvState(e.Envelope) == old(signature.EnvState(e.Envelope))))
+//@   assert before call base.validateCertificateChain#0: [chain-at-signing-time] arg0 == content.SignerInfo.CertificateChain && arg2 == content.SignerInfo.SignatureAlgorithm && *arg1 == content.SignerInfo.SignedAttributes.SigningTime
